@@ -55,6 +55,10 @@ func (s *container) subscriber(cleanStart bool, c subscriber.Config) *subscriber
 
 	if s.sub == nil {
 		s.sub = subscriber.New(c)
+	} else {
+		// a kept session may be resumed by a client that speaks another protocol version: what is
+		// routed to it from now on is stamped (and given properties) for its current connection
+		s.sub.Version = c.Version
 	}
 
 	return s.sub
